@@ -27,3 +27,55 @@ Theorem C08_reset_announced : forall c s r,
   (l_frame_recs s' <> [] /\ l_next_flag s' = l_next_flag s).
 Proof. exact reset_announced. Qed.
 Print Assumptions C08_reset_announced.
+
+(* ---- the control loop run with the REAL encoder (Stream/LimitsCompose.v): every record is measured by
+   what enc adds to the columns and to the dictionaries; the frames it forms are exactly those of the
+   abstract loop above on the measured sizes, the real column bits of all but the last record of every
+   frame stay below the limit, no record is lost or reordered, a dictionary reset is performed iff it is
+   announced, and the stream is read back completely (composition with the C01 stream theorem) ---- *)
+From Stef Require Import Bits Codecs Schema Wire WireOk Frame FrameFacts Reader Writer FrameContentFacts FrameContentInv StreamFactsBase StreamFacts LimitsCompose.
+
+Theorem C08_real_loop_is_abstract_loop : forall (cfg : lcfg) (base esz : N) (t : etree),
+  N.testbit base 0 = c_flag_dicts cfg -> forall (ws0 : wst) (recs : list wire),
+  w_write_all cfg base esz t ws0 recs = regroup base true (l_frames (l_run cfg (w_sizes cfg base esz t ws0 recs))) recs.
+Proof. exact w_write_all_abstracts. Qed.
+Print Assumptions C08_real_loop_is_abstract_loop.
+
+Theorem C08_real_frame_bits_bounded : forall (cfg : lcfg) (base esz : N) (t : etree) (ws0 : wst) (recs : list wire),
+  acc_empty ws0 ->
+  frames_bits_bounded (8 * c_frame_limit cfg) t ws0 (w_write_all cfg base esz t ws0 recs) /\
+  (let s := w_run cfg base esz t ws0 recs in
+   cw_recs s = nil \/ wst_frame_bits (frame_end t (cw_flags s) (stream_end t ws0 (strip (cw_closed s))) (map fst (cw_recs s))) < 8 * c_frame_limit cfg).
+Proof. exact frame_bits_bounded. Qed.
+Print Assumptions C08_real_frame_bits_bounded.
+
+Theorem C08_real_dict_bounded : forall (cfg : lcfg) (base esz : N) (t : etree),
+  N.testbit base 0 = c_flag_dicts cfg -> forall (ws0 : wst) (recs : list wire),
+  0 < c_dict_limit cfg -> wst_dict_measure esz ws0 = 0 ->
+  let s := w_run cfg base esz t ws0 recs in wst_dict_measure esz (cw_st s) < c_dict_limit cfg \/ wst_dict_measure esz (cw_st s) = 0.
+Proof. exact dict_measure_bounded. Qed.
+Print Assumptions C08_real_dict_bounded.
+
+Theorem C08_no_record_lost : forall (cfg : lcfg) (base esz : N) (t : etree) (ws0 : wst) (recs : list wire),
+  concat (map snd (w_write_all cfg base esz t ws0 recs)) = recs.
+Proof. exact w_write_all_concat. Qed.
+Print Assumptions C08_no_record_lost.
+
+Theorem C08_reset_flags : forall (cfg : lcfg) (base esz : N) (t : etree) (ws0 : wst) (recs : list wire),
+  N.testbit base 0 = c_flag_dicts cfg ->
+  map (fun f : N * list wire => flag_dicts (fst f)) (w_write_all cfg base esz t ws0 recs) =
+  map fst (l_frames (l_run cfg (w_sizes cfg base esz t ws0 recs))).
+Proof. exact w_write_all_flags. Qed.
+Print Assumptions C08_reset_flags.
+
+Theorem C08_limited_stream_roundtrip : forall (cfg : lcfg) (base esz : N) (sc : schema) (root : N) (sizes : N -> N) (fuel : nat)
+    (hfl : N) (hdr : bytes) (t : etree) (recs : list wire) (r0 : reader) (kr k : nat),
+  let frames := w_write_all cfg base esz t wst0 recs in
+  frame_okb hfl hdr = true ->
+  reader_open sc root (SrcBytes (emit_frame hfl hdr ++ emit_all (stream_encode t wst0 frames))) = inr r0 ->
+  rd_tree r0 = t ->
+  stream_ok sizes fuel t frames wst0 RNil (PM.empty _) = true ->
+  (length recs < kr)%nat -> (length recs < k)%nat ->
+  read_all sizes fuel kr k r0 = (recs, stream_values t frames RNil (PM.empty _), Some RdEnd).
+Proof. exact w_write_all_roundtrip_open_bytes. Qed.
+Print Assumptions C08_limited_stream_roundtrip.
